@@ -78,6 +78,7 @@ class Ctx:
         self._vac_cache = {}
         self.default_timeout = 60 if tier == "quick" else 600
         self._replay_n = 0
+        self.max_reports = 0      # 0 = no limit; a check may cap the number of distinct reproduced reports per run
         self._reported = set()
         self.known = load_known_findings()
 
@@ -253,9 +254,17 @@ class Ctx:
         self.inconclusive.append({"query": name, "reason": reason})
 
     # ------------------------------------------------------------------ violations
+    def _is_known(self, key):
+        return any(k.get("status") == "known" and k["property"] == self.pid and k["key"] == key for k in self.known)
+
     def violation(self, key, what, data, reproduce, soft=False):
         """A solver counterexample.  ``reproduce(data)`` runs the *real* code and returns
         (reproduced: bool, detail).  Only reproduced failures are reported."""
+        if key in self._reported or (self.max_reports and self.violations >= self.max_reports and not self._is_known(key)):
+            # already reported (or the report limit of this run is reached): counted, not replayed again
+            self.replays.append({"key": key, "what": what, "data": _jsonable(data), "reproduced": None,
+                                 "detail": "not replayed: %s" % ("same key already reported" if key in self._reported else "report limit reached")})
+            return True
         try:
             ok, detail = reproduce(data)
         except Exception as e:  # the replay itself blew up: that is a reproduction of *something*
